@@ -78,7 +78,7 @@ def check_cfg(ctx, fx, cfg):
         good = bool(a_idx)  # no visible Ok(..) literal (e.g. `outcome.map(|_| actor)`): nothing to judge here
         for st in oks:
             for r in roots(b, st["r"]["ops"][0]):
-                is_actor = (r.kind == "upvar" and r.site == a_idx[0]) or (r.kind == "await" and any(nfa.trait_method(loops.T_RS, "refresh")(ct) for _x, ct in b.awaited_calls(r.site[0])))
+                is_actor = loops.is_actor_root(fx, b, r, a_idx)
                 if not is_actor:
                     good = False
         ctx.require(good, "R17.1", "%s-loop-returns-its-actor@%s" % (kind, cfg), "the loop must hand back the very actor value its handlers and stopped() worked on", fn=f["def"], site=oks[0].get("l") if oks else f["loc"])
